@@ -36,6 +36,7 @@ class Contract:
         self.env = {}                 # constants visible to spec expressions
         self.body_slice = None        # callable(list of stmts) -> (kept stmts, dropped stmts)
         self.dropped_scan = None      # callable(dropped stmts) -> None | reason (syntactic frame of the rest)
+        self.exc_ensures = []         # (exc type, name, expr over exc_arg) checked on raising paths
 
     # builder API ------------------------------------------------------------
     def req(self, expr):
@@ -48,6 +49,10 @@ class Contract:
 
     def rais(self, exc, when=None):
         self.raises.append((exc, when))
+        return self
+
+    def ens_exc(self, exc, expr, name=None):
+        self.exc_ensures.append((exc, name or f"excpost{len(self.exc_ensures)}", expr))
         return self
 
     def loop(self, ordinal, **kw):
@@ -455,6 +460,11 @@ def verify(E, contract, variant=None, setup=None):
                         E.oblige(s, f"raises.unexpected.{v.exc.type}", z3.BoolVal(False), kind="raises",
                                  meta={"exception": v.exc.type, "args": [str(a) for a in v.exc.args]})
                     else:
+                        for exc, name, e in contract.exc_ensures:
+                            if exc_isinstance(v.exc.type, exc):
+                                arg = v.exc.args[0] if v.exc.args else None
+                                f = spec_formula(E, s, e, {"exc_arg": arg}, old_state=entry)
+                                E.oblige(s, f"raises.{exc}.{name}", f, kind="post", meta={"ensures": e})
                         for exc, when in allowed:
                             if when is not None:
                                 E.oblige(s, f"raises.{exc}.when", spec_formula(E, s, when, old_state=entry),
